@@ -181,7 +181,10 @@ func (s *LinearState) Add(ctx *Context, id string, x Map) (string, error) {
 		return id, err
 	}
 
-	bs, err := json.Marshal(&x)
+	// Store the prepared fact, not the given map: a relative "ttl"
+	// has become an absolute "expires" there, which is what must
+	// survive a reload.
+	bs, err := json.Marshal(m)
 	if err != nil {
 		return id, err
 	}
